@@ -15,7 +15,9 @@ EXTENDS CryptoContract, Json, SequencesExt
 CONSTANTS GenericNopadFix,   \* crypto.Encrypt/Decrypt dispatch the three *-NOPAD names
           EcdsaCurveFix,     \* ES256/384/512 tie the curve to the name
           KwLenFix,          \* aeskw: Wrap wants >= 16 bytes, Unwrap a multiple of 8 that is >= 24
-          OpenLenFix         \* aescbcaead.Open rejects a ciphertext that is not a whole number of blocks
+          OpenLenFix,        \* aescbcaead.Open rejects a ciphertext that is not a whole number of blocks
+          PadBoundFix,       \* UnpadPKCS7 bounds the pad length by the block size (FALSE: by the message length)
+          KidCacheFix        \* FALSE: RSA public keys for verification are cached by key id (kid)
 
 VARIABLES cs, c, i, pc
 vars == <<cs, c, i, pc>>
@@ -107,8 +109,22 @@ ImplDirect(x) ==
        IF x.fn = "aescbcaead.Seal" THEN Chain(<<key>>, {"ok"})
        ELSE Chain(<<key>>, IF x.nonceLen # 16 THEN {"error"} ELSE AeadOpen(x, r))   \* a wrong nonce fails the MAC
 
+(* UnpadPKCS7 as reached directly and from every padded-CBC decryption *)
+ImplPad(x) ==
+  LET bound == IF PadBoundFix THEN 16 ELSE x.inLen IN
+  IF x.padV <= 0 \/ x.padV > bound THEN {"error"}
+  ELSE IF x.padTail = "full" \/ (x.padTail = "lastonly" /\ x.padV = 1) THEN {"ok"}
+  ELSE {"error"}
+
+(* verification through a stale cached RSA key: the key that an earlier call stored under this key id *)
+StaleRSA(x, k) ==
+  ~KidCacheFix /\ IsSeq(x) /\ k = 1 /\ x.seq = "rsa" /\ x.fn = "VerifyPublicKey"
+  /\ x.alg \in SigNames /\ Row(x.alg).fam \in {"rsapkcs", "rsapss"}
+ImplStale(x) == IF x.mut = "otherkey" /\ Base(x.keyKind) = "rsa" THEN {"ok"} ELSE {"invalid"}
+
 Impl(x) ==
-  CASE x.fn \in SymFns -> ImplSym(x)
+  CASE x.mut = "pad" -> ImplPad(x)
+    [] x.fn \in SymFns -> ImplSym(x)
     [] x.fn \in AsymFns -> ImplAsym(x)
     [] x.fn \in GenericFns -> ImplGeneric(x)
     [] x.fn \in SigFns -> ImplSig(x)
@@ -119,7 +135,7 @@ ImplRt(x, o) ==
   IF o = "ok" /\ ~KwLenFix /\ Dir(x.fn) = "enc" /\ x.inLen = 0 /\ x.alg \in KwNames /\ x.fn \in SymFns \cup GenericFns \cup KwFns
   THEN "no" ELSE "yes"
 
-ModelCompLen(x) == IF x.mut \in Flips THEN 2 ELSE 1     \* the model abstracts a component to two byte positions
+ModelCompLen(x) == IF x.mut \in Flips \/ IsSeq(x) THEN 2 ELSE 1     \* the model abstracts a component to two byte positions
 
 Init ==
   /\ \E g \in Groups : cs \in GroupCases(g)
@@ -129,7 +145,7 @@ Init ==
 
 Call ==
   /\ pc = "call"
-  /\ \E o \in Impl(cs) :
+  /\ \E o \in (IF StaleRSA(cs, i) THEN ImplStale(cs) ELSE Impl(cs)) :
        c' = CNext(c, [ev |-> "call", idx |-> i, outcome |-> o, rt |-> ImplRt(cs, o), ref |-> "yes", noout |-> "yes"])
   /\ i' = i + 1
   /\ pc' = IF i + 1 >= ModelCompLen(cs) THEN "end" ELSE "call"
